@@ -196,6 +196,7 @@ typedef struct rcfg_t {
   int nropts;
   int sref; /* take and keep a session reference in the handler */
   int dyn;  /* unknown-resource handler: create the resource on PUT */
+  int dynres; /* created by the unknown-resource handler: DELETE removes the resource */
   int maxage;
   int rtype; /* >=0: set this message type on the response */
   coap_resource_t *res;
@@ -485,6 +486,7 @@ hnd_generic(coap_resource_t *resource, coap_session_t *session, const coap_pdu_t
       n2 = new_rcfg(rc->node, pb);
       n2->body_kind = 4;
       n2->res = r;
+      n2->dynres = 1;
       coap_resource_set_userdata(r, n2);
       for (i = 1; i <= 7; i++)
         coap_register_request_handler(r, (coap_request_t)i, hnd_generic);
@@ -497,6 +499,15 @@ hnd_generic(coap_resource_t *resource, coap_session_t *session, const coap_pdu_t
       ev_end();
       return;
     }
+  }
+
+  if (rc->dynres && method == 4) {
+    /* like the DELETE handler of the coap-server example */
+    rc->res = NULL;
+    rc->path[0] = 0;
+    coap_delete_resource(NULL, resource);
+    coap_pdu_set_code(response, COAP_RESPONSE_CODE(202));
+    return;
   }
 
   if (rc->sref && nd->nheld < 64) {
@@ -1012,7 +1023,12 @@ cmd_delres(void) {
   uint8_t *p = vf_unhex(tok[2], strlen(tok[2]), &plen);
   coap_str_const_t name = {plen, p};
   coap_resource_t *r = coap_get_resource_from_uri_path(nd->ctx, &name);
-  int ok = 0;
+  int ok = 0, i;
+  for (i = 0; r && i < nd->nrc; i++)
+    if (nd->rc[i]->res == r) {
+      nd->rc[i]->res = NULL;
+      nd->rc[i]->path[0] = 0;
+    }
   if (r)
     ok = coap_delete_resource(nd->ctx, r);
   free(p);
@@ -1532,6 +1548,35 @@ cmd_peekobs(void) {
   }
 }
 
+extern char vf_pdir[256];
+extern long vf_pop_ord, vf_pop_kill_at;
+extern int vf_pop_log;
+
+static void
+cmd_persist(void) {
+  /* persist <n> <dir> freq=<k> [files=dyn,obs,cnt]   coap_persist_startup on that directory */
+  node_t *nd = &nodes[atoi(tok[1])];
+  char a[300], b[300], c[300];
+  const char *files = kv("files", "dyn,obs,cnt");
+  int r;
+  snprintf(vf_pdir, sizeof(vf_pdir), "%s", tok[2]);
+  snprintf(a, sizeof(a), "%s/dyn", vf_pdir);
+  snprintf(b, sizeof(b), "%s/obs", vf_pdir);
+  snprintf(c, sizeof(c), "%s/cnt", vf_pdir);
+  r = coap_persist_startup(nd->ctx, strstr(files, "dyn") ? a : NULL, strstr(files, "obs") ? b : NULL,
+                           strstr(files, "cnt") ? c : NULL, (uint32_t)kvi("freq", 1));
+  ev_begin("persist");
+  ev_int("r", r);
+  ev_int("pops", vf_pop_ord);
+  ev_int("sz_key", (long)sizeof(coap_subscription_t *));
+  ev_int("sz_proto", (long)sizeof(coap_proto_t));
+  ev_int("sz_addr", (long)sizeof(coap_address_t));
+  ev_int("sz_tuple", (long)sizeof(coap_addr_tuple_t));
+  ev_int("off_local", (long)offsetof(coap_addr_tuple_t, local));
+  ev_int("off_sa", (long)offsetof(coap_address_t, addr));
+  ev_end();
+}
+
 static void
 free_node(int n) {
   node_t *nd = &nodes[n];
@@ -1567,7 +1612,7 @@ static void
 run_command(void) {
   const char *c = tok[0];
   static const char *noded[] = {"node", "ctx", "ep", "res", "delres", "sess", "send", "notify",
-                                "prepare", "io", "peek", "peekobs", "urihelpers", "oscore_server", "peekosc", "verdict", "cancelobs", "release",
+                                "prepare", "io", "peek", "peekobs", "persist", "persist_stop", "urihelpers", "oscore_server", "peekosc", "verdict", "cancelobs", "release",
                                 "disconnect", "appref", "apprelease", "freenode", NULL};
   int i;
   for (i = 0; noded[i]; i++)
@@ -1613,7 +1658,19 @@ run_command(void) {
     cmd_peek();
   else if (!strcmp(c, "peekobs"))
     cmd_peekobs();
-  else if (!strcmp(c, "urihelpers"))
+  else if (!strcmp(c, "persist"))
+    cmd_persist();
+  else if (!strcmp(c, "persist_stop"))
+    coap_persist_stop(nodes[atoi(tok[1])].ctx);
+  else if (!strcmp(c, "popkill"))
+    vf_pop_kill_at = atol(tok[1]);
+  else if (!strcmp(c, "poplog"))
+    vf_pop_log = atoi(tok[1]);
+  else if (!strcmp(c, "pops")) {
+    ev_begin("pops");
+    ev_int("ord", vf_pop_ord);
+    ev_end();
+  } else if (!strcmp(c, "urihelpers"))
     cmd_urihelpers();
   else if (!strcmp(c, "oscore_server"))
     cmd_oscore_server();
